@@ -87,6 +87,14 @@ pub enum Call {
     RefreshSnapshot,
     /// slice(v): observed, then discarded
     Slice(usize),
+    /// slice_some(v, p) with p a fixed hash of (seed, from, to, label) accepting about half
+    /// of the edges: observed, then discarded
+    SliceSome(usize, u16),
+    /// other = Sodg::empty(cap) with the given vertices added; other.clone_from(&g); g = other
+    CloneInto {
+        cap: usize,
+        ids: Vec<usize>,
+    },
     /// g.merge(&h, left, h.root)
     Merge {
         h: TreeSpec,
@@ -122,6 +130,8 @@ impl Call {
             Call::Snapshot => "snapshot=g.clone()".into(),
             Call::RefreshSnapshot => "snapshot.clone_from(&g); g=snapshot".into(),
             Call::Slice(v) => format!("slice({v})"),
+            Call::SliceSome(v, p) => format!("slice_some({v},p#{p})"),
+            Call::CloneInto { cap, ids } => format!("other=empty({cap})+{ids:?}; other.clone_from(&g); g=other"),
             Call::Merge { h, left } => format!(
                 "merge(h[{}],left={left},right={})",
                 h.nodes
